@@ -1,8 +1,10 @@
 ----------------------------- MODULE FontCache -----------------------------
 (***************************************************************************)
-(* The memoising state of allsorts' Font object (src/font.rs) and of its   *)
-(* GSUB layout cache (src/layout.rs LayoutCacheData, src/gsub.rs           *)
-(* get_lookups_cache_index), and the public queries that read and fill it. *)
+(* The memoising state of allsorts' Font object (src/font.rs), of its      *)
+(* GSUB/GPOS layout caches (src/layout.rs LayoutCacheData, src/gsub.rs     *)
+(* get_lookups_cache_index) and of the ReadCache of parsed Coverage and    *)
+(* ClassDef tables (src/binary/read.rs), and the public queries that read  *)
+(* and fill them.                                                          *)
 (* Property C03: every query returns what it would return on a freshly     *)
 (* loaded font, whatever was asked before.                                 *)
 (*                                                                         *)
@@ -17,28 +19,80 @@
 (* TLC proves Pure for the second and enumerates, for the first, which     *)
 (* histories the code's keys make impure (with the slot to blame); the     *)
 (* harness replays the histories on real Font objects.                     *)
+(*                                                                         *)
+(* Three more constants name DEFECT CLASSES the design excludes (the code  *)
+(* and the design both have them switched off); switching one on must make *)
+(* TLC predict impure histories - that is how the driver knows that the    *)
+(* universe of fonts and calls is able to expose the class at all:         *)
+(*   StoreFailed : a lazy slot is filled although its load FAILED, so the  *)
+(*                 error is reported once and "table absent" ever after    *)
+(*   PosKeyMode  : the ReadCache key of a Coverage/ClassDef object -       *)
+(*                 "abs" its absolute position in the layout table, or a   *)
+(*                 narrowing of it: "u16", "u8" (position truncated),      *)
+(*                 "rel" (offset relative to the sub-table)                *)
+(*   IdxKeyMode  : the key of a parsed lookup - "abs" its index, "u8"      *)
 (***************************************************************************)
 EXTENDS Integers, Sequences, FiniteSets, TLC
 
 CONSTANTS CodeKeys,      \* BOOLEAN
           HasFV,         \* the font's GSUB has FeatureVariations: lookups depend on the tuple
-          HasImages      \* the font has an embedded-image table
+          HasImages,     \* the font has an embedded-image table
+          StoreFailed,   \* BOOLEAN, FALSE in the code and in the design
+          PosKeyMode,    \* "abs" in the code and in the design
+          IdxKeyMode     \* "abs" in the code and in the design
+
+\* ---- the font ------------------------------------------------------------
+\* A font descriptor is the part of the font's content the cache model has to know:
+\*   fam     : "intact" | "dmg" | "collide"  (which universe of calls is explored on it)
+\*   damaged : sequence of lazily loaded table kinds that are present but whose load fails
+\*             (gsub gpos gdef morx kern vhea vmtx images)
+\*   lookups : sequence of the layout lookups whose parsing is modelled
+\*             [tbl, idx, feat, typ, ext, sub, objs, nested]
+\*               tbl "GSUB"|"GPOS", idx lookup index, feat the feature that activates it,
+\*               objs the Coverage/ClassDef objects its sub-table refers to, in the order they are read:
+\*                 [kind "cov"|"cls", pos absolute position, rel position relative to the sub-table, content]
+\*               nested: indices of lookups applied through its rules
+\*               (typ, ext, sub tell the harness how to lay the bytes out; the model ignores them)
+Range(s) == {s[i] : i \in DOMAIN s}
+IsDamaged(font, k) == k \in Range(font.damaged)
 
 \* ---- slots --------------------------------------------------------------
 \*  glyph   : function key -> term        (font.rs GlyphCache: only U+25CC is cached)
 \*  images  : function key -> filter value the image tables were selected under (LazyLoad embedded_images:
 \*            one slot in the code; keyed by the filter in the intended design)
 \*  lookups : function key -> term        (lookups_index + cached_lookups)
-\*  lazy    : set of loaded constant tables (gdef, morx, gsub, gpos, kern, vhea, vmtx, os2)
+\*  lazy    : function table kind -> "ok" (LazyLoad::Loaded) | "failed" (a load was attempted and failed: the
+\*            slot is still NotLoaded - the mark only records that the history went through a failing load)
+\*            | "absent" (defect StoreFailed only: Loaded(None) after a failed load)
+\*  parsed  : function <<tbl, key of lookup index>> -> term of the parsed lookup (LayoutCacheData.lookup_cache)
+\*  objs    : function <<tbl, kind, key of position>> -> term of the parsed object (coverages / classdefs)
 \*  filter  : current embedded image filter (configuration, set by set_embedded_image_filter)
-InitState == [glyph |-> <<>>, images |-> <<>>, lookups |-> <<>>, lazy |-> {}, filter |-> "default"]
+InitStateOf(font) == [font |-> font, glyph |-> <<>>, images |-> <<>>, lookups |-> <<>>, lazy |-> <<>>,
+                      parsed |-> <<>>, objs |-> <<>>, filter |-> "default"]
+PlainFont == [fam |-> "intact", damaged |-> <<>>, lookups |-> <<>>]
+InitState == InitStateOf(PlainFont)
 
 Put(f, k, v) == [x \in (DOMAIN f) \cup {k} |-> IF x = k THEN v ELSE f[x]]
+
+\* ---- lazily loaded tables (font.rs LazyLoad::get_or_load) -------------------
+\* what loading the table gives now: an error for a damaged table, the table (or its absence) otherwise
+LoadNow(st, k) == IF IsDamaged(st.font, k) THEN "err" ELSE "ok"
+\* returns [st, val, stale]; a failing load leaves the slot NotLoaded, so it is retried by the next query
+ReadLazy(st, k) ==
+  IF k \in DOMAIN st.lazy /\ st.lazy[k] # "failed"
+  THEN [st |-> st, val |-> st.lazy[k],
+        stale |-> IF st.lazy[k] # LoadNow(st, k) THEN {"lazy.failedLoad"} ELSE {}]
+  ELSE IF LoadNow(st, k) = "err"
+       THEN [st |-> [st EXCEPT !.lazy = Put(@, k, IF StoreFailed THEN "absent" ELSE "failed")], val |-> "err", stale |-> {}]
+       ELSE [st |-> [st EXCEPT !.lazy = Put(@, k, "ok")], val |-> "ok", stale |-> {}]
 
 \* ---- what values depend on -----------------------------------------------
 Resolve(ch, vs) == IF vs # "none" THEN vs ELSE IF ch = "EM" THEN "VS16" ELSE "VS15"
 \* which image tables a filter lets through (only matters when the font has any)
 ImagesUnder(f) == IF HasImages THEN f ELSE "n/a"
+\* what selecting the image tables gives now; the default filter is the one that selects the (damaged) table
+ImagesNow(st) == IF HasImages /\ IsDamaged(st.font, "images") /\ st.filter = "default" THEN "err" ELSE ImagesUnder(st.filter)
+ImagesStored(v) == IF v = "absent" THEN "none" ELSE ImagesUnder(v)
 \* region of the design space as far as GSUB FeatureVariations distinguish it
 FV(t) == IF HasFV THEN t ELSE "n/a"
 
@@ -47,10 +101,15 @@ FV(t) == IF HasFV THEN t ELSE "n/a"
 ImagesKey(st) == IF CodeKeys THEN "slot" ELSE ImagesUnder(st.filter)
 ReadImages(st) ==
   LET k == ImagesKey(st) IN
-  IF k \notin DOMAIN st.images
-  THEN [st |-> [st EXCEPT !.images = Put(@, k, st.filter)], val |-> ImagesUnder(st.filter), stale |-> {}]
-  ELSE [st |-> st, val |-> ImagesUnder(st.images[k]),
-        stale |-> IF ImagesUnder(st.images[k]) # ImagesUnder(st.filter) THEN {"images.filter"} ELSE {}]
+  IF k \in DOMAIN st.images
+  THEN [st |-> st, val |-> ImagesStored(st.images[k]),
+        stale |-> IF ImagesStored(st.images[k]) = ImagesNow(st) THEN {}
+                  ELSE IF st.images[k] = "absent" THEN {"lazy.failedLoad"} ELSE {"images.filter"}]
+  ELSE IF ImagesNow(st) = "err"
+       THEN [st |-> IF StoreFailed THEN [st EXCEPT !.images = Put(@, k, "absent")]
+                    ELSE [st EXCEPT !.lazy = Put(@, "images", "failed")],
+             val |-> "err", stale |-> {}]
+       ELSE [st |-> [st EXCEPT !.images = Put(@, k, st.filter)], val |-> ImagesUnder(st.filter), stale |-> {}]
 
 \* map_unicode_to_glyph returns (glyph, selector used).  The glyph depends on the presentation
 \* only when it is Required (then on the image tables for VS16); the selector used is always
@@ -70,12 +129,15 @@ GlyphKey(ch, pres, vs, st) ==
   IF CodeKeys THEN ch
   ELSE <<ch, pres, Resolve(ch, vs), IF pres = "Req" /\ Resolve(ch, vs) = "VS16" THEN ImagesUnder(st.filter) ELSE "-">>
 
+\* the state of a freshly loaded font carrying the same configuration
+FreshOf(st) == [InitStateOf(st.font) EXCEPT !.filter = st.filter]
+
 \* lookup_glyph_index
 LookupGlyph(st, ch, pres, vs) ==
   IF ~Cacheable(ch, pres, vs) THEN MapChar(st, ch, pres, vs)
   ELSE LET k == GlyphKey(ch, pres, vs, st) IN
        IF k \in DOMAIN st.glyph
-       THEN LET fresh == MapChar([InitState EXCEPT !.filter = st.filter], ch, pres, vs) IN   \* a fresh font's answer
+       THEN LET fresh == MapChar(FreshOf(st), ch, pres, vs) IN   \* a fresh font's answer
             [st |-> st, val |-> st.glyph[k],
              stale |-> IF st.glyph[k] # fresh.val THEN {"glyph.dottedCircle"} ELSE {}]
        ELSE LET r == MapChar(st, ch, pres, vs) IN
@@ -100,13 +162,87 @@ ReadLookups(st, s, l, m, t) ==
         stale |-> IF st.lookups[k] # LookupsTerm(s, l, m, t) THEN {"lookupsIndex.tuple"} ELSE {}]
   ELSE [st |-> [st EXCEPT !.lookups = Put(@, k, LookupsTerm(s, l, m, t))], val |-> LookupsTerm(s, l, m, t), stale |-> {}]
 
-\* Font::shape: loads the layout tables, looks the dotted circle up (NotRequired, no selector),
-\* fetches the lookups for (script, lang, mask) under the tuple, applies them
+\* ---- parsing a lookup on first use: lookup_cache + ReadCache ----------------
+PosKey(o) == CASE PosKeyMode = "abs" -> o.pos
+               [] PosKeyMode = "u16" -> o.pos % 65536
+               [] PosKeyMode = "u8"  -> o.pos % 256
+               [] PosKeyMode = "rel" -> o.rel
+IdxKey(i) == IF IdxKeyMode = "u8" THEN i % 256 ELSE i
+ObjTerm(o) == <<o.kind, o.content>>
+LookupAt(font, tbl, idx) == CHOOSE L \in Range(font.lookups) : L.tbl = tbl /\ L.idx = idx
+LookupTruth(L) == <<"lookup", L.idx, [i \in DOMAIN L.objs |-> ObjTerm(L.objs[i])]>>
+
+RECURSIVE ReadObjs(_, _, _)
+\* ReadScope::read_cache over the objects of one sub-table, in order; returns [st, val, stale]
+ReadObjs(st, tbl, os) ==
+  IF os = <<>> THEN [st |-> st, val |-> <<>>, stale |-> {}]
+  ELSE LET o   == os[1]
+           k   == <<tbl, o.kind, PosKey(o)>>
+           hit == k \in DOMAIN st.objs
+           t   == IF hit THEN st.objs[k] ELSE ObjTerm(o)
+           r   == ReadObjs(IF hit THEN st ELSE [st EXCEPT !.objs = Put(@, k, t)], tbl, Tail(os)) IN
+       [st |-> r.st, val |-> <<t>> \o r.val,
+        stale |-> (IF t # ObjTerm(o) THEN {"readCache.position"} ELSE {}) \cup r.stale]
+
+RECURSIVE UseLookup(_, _, _)
+RECURSIVE UseSeq(_, _, _)
+\* lookup_cache_gsub / lookup_cache_gpos followed by the application of the lookup; the lookups its
+\* rules name are used in turn (the texts shaped on these fonts make every rule match)
+UseLookup(st, tbl, idx) ==
+  LET L     == LookupAt(st.font, tbl, idx)
+      k     == <<tbl, IdxKey(idx)>>
+      hit   == k \in DOMAIN st.parsed
+      r     == IF hit THEN [st |-> st, val |-> <<>>, stale |-> {}] ELSE ReadObjs(st, tbl, L.objs)
+      term  == IF hit THEN st.parsed[k] ELSE <<"lookup", idx, r.val>>
+      st1   == IF hit THEN st ELSE [r.st EXCEPT !.parsed = Put(@, k, term)]
+      here  == IF ~hit THEN r.stale
+               ELSE IF term[2] # idx THEN {"lookupCache.index"}
+               ELSE IF term # LookupTruth(L) THEN {"readCache.position"} ELSE {}
+      n     == UseSeq(st1, tbl, L.nested) IN
+  [st |-> n.st, val |-> <<term>> \o n.val, stale |-> here \cup n.stale]
+UseSeq(st, tbl, idxs) ==
+  IF idxs = <<>> THEN [st |-> st, val |-> <<>>, stale |-> {}]
+  ELSE LET a == UseLookup(st, tbl, idxs[1])
+           b == UseSeq(a.st, tbl, Tail(idxs)) IN
+       [st |-> b.st, val |-> a.val \o b.val, stale |-> a.stale \cup b.stale]
+
+\* the lookups of `tbl` activated by a set of features, in lookup-index order
+ActiveSet(font, tbl, feats) == {L.idx : L \in {M \in Range(font.lookups) : M.tbl = tbl /\ M.feat \in Range(feats)}}
+RECURSIVE Ascending(_)
+Ascending(S) == IF S = {} THEN <<>>
+                ELSE LET m == CHOOSE x \in S : \A y \in S : x <= y IN <<m>> \o Ascending(S \ {m})
+UseFeatures(st, tbl, feats) == UseSeq(st, tbl, Ascending(ActiveSet(st.font, tbl, feats)))
+
+Nothing(st) == [st |-> st, val |-> <<>>, stale |-> {}]
+
+\* Font::shape: loads the five layout tables (gsub, gpos, gdef, morx, kern - the first error is reported
+\* and shaping goes on without that table), looks the dotted circle up (NotRequired, no selector),
+\* fetches the lookups for (script, lang, mask) under the tuple (Features::Mask only - custom feature
+\* lists are not cached), parses and applies them
 Shape(st, c) ==
-  LET st1 == [st EXCEPT !.lazy = @ \cup {"gsub", "gpos", "gdef", "morx", "kern"}]
-      dc  == LookupGlyph(st1, "DC", "NotReq", "none")
-      lk  == ReadLookups(dc.st, c.script, c.lang, c.mask, c.tuple) IN
-  [st |-> lk.st, val |-> <<"shape", c.text, c.kern, dc.val, lk.val>>, stale |-> dc.stale \cup lk.stale]
+  LET g1  == ReadLazy(st, "gsub")
+      g2  == ReadLazy(g1.st, "gpos")
+      g3  == ReadLazy(g2.st, "gdef")
+      g4  == ReadLazy(g3.st, "morx")
+      g5  == ReadLazy(g4.st, "kern")
+      dc  == LookupGlyph(g5.st, "DC", "NotReq", "none")
+      lk  == IF g1.val # "ok" THEN [st |-> dc.st, val |-> "no gsub", stale |-> {}]
+             ELSE IF c.custom THEN [st |-> dc.st, val |-> LookupsTerm(c.script, c.lang, c.mask, c.tuple), stale |-> {}]
+             ELSE ReadLookups(dc.st, c.script, c.lang, c.mask, c.tuple)
+      sub == IF g1.val = "ok" THEN UseFeatures(lk.st, "GSUB", c.feats) ELSE Nothing(lk.st)
+      pos == IF g2.val = "ok" THEN UseFeatures(sub.st, "GPOS", c.feats) ELSE Nothing(sub.st) IN
+  [st |-> pos.st,
+   val |-> <<"shape", c.text, c.kern, <<g1.val, g2.val, g3.val, g4.val, g5.val>>, dc.val, lk.val, sub.val, pos.val>>,
+   stale |-> g1.stale \cup g2.stale \cup g3.stale \cup g4.stale \cup g5.stale \cup dc.stale \cup lk.stale
+             \cup sub.stale \cup pos.stale]
+
+\* Font::vertical_advance: vmtx, then vhea; an error and an absent table both answer None
+VAdvance(st, c) ==
+  LET a == ReadLazy(st, "vmtx") IN
+  IF a.val = "err" THEN [st |-> a.st, ret |-> <<"vadv", c.g, "none">>, stale |-> a.stale]
+  ELSE LET b == ReadLazy(a.st, "vhea") IN
+       [st |-> b.st, ret |-> IF a.val = "ok" /\ b.val = "ok" THEN <<"vadv", c.g>> ELSE <<"vadv", c.g, "none">>,
+        stale |-> a.stale \cup b.stale]
 
 \* ---- queries --------------------------------------------------------------
 \* call records: [op |-> ..., ...]; Step returns [st, ret, stale]
@@ -121,17 +257,20 @@ Step(st, c) ==
                                                  !.images = IF CodeKeys /\ c.f # st.filter THEN <<>> ELSE @],
                                 ret |-> "unit", stale |-> {}]
     [] c.op = "HAdvance"    -> [st |-> st, ret |-> <<"hadv", c.g>>, stale |-> {}]
-    [] c.op = "VAdvance"    -> [st |-> [st EXCEPT !.lazy = @ \cup {"vhea", "vmtx"}], ret |-> <<"vadv", c.g>>, stale |-> {}]
+    [] c.op = "VAdvance"    -> VAdvance(st, c)
     [] c.op = "GlyphNames"  -> [st |-> st, ret |-> <<"names", c.g>>, stale |-> {}]
+    \* gsub_cache() gpos_cache() gdef_table() morx_table() kern_table() vhea_table()
+    [] c.op = "Table"       -> LET r == ReadLazy(st, c.k) IN [st |-> r.st, ret |-> <<"table", c.k, r.val>>, stale |-> r.stale]
 
 \* the same call on a freshly loaded font carrying the same configuration
-Fresh(st, c) == Step([InitState EXCEPT !.filter = st.filter], c).ret
+Fresh(st, c) == Step(FreshOf(st), c).ret
 
 \* C03 for one step
 PureStep(st, c) == Step(st, c).ret = Fresh(st, c)
 \* a stale read is the only way to be impure, and it always is one (the model's own consistency)
 StaleIffImpure(st, c) == (Step(st, c).stale # {}) <=> ~PureStep(st, c)
 
-AllCauses == <<"glyph.dottedCircle", "images.filter", "lookupsIndex.tuple">>
+AllCauses == <<"glyph.dottedCircle", "images.filter", "lookupsIndex.tuple", "lazy.failedLoad",
+               "readCache.position", "lookupCache.index">>
 CausesSeq(S) == SelectSeq(AllCauses, LAMBDA x : x \in S)
 =============================================================================
